@@ -17,11 +17,12 @@ func init() { register("C01", checkC01) }
 func c01Profiles() []GenOpts {
 	return []GenOpts{
 		{MaxStmts: 30, MaxDepth: 2, Funcs: 2},
-		{MaxStmts: 40, MaxDepth: 3, Funcs: 3, Strings: true, SmallInts: true},
+		{MaxStmts: 40, MaxDepth: 3, Funcs: 3, Strings: true, SmallInts: true, Lib: true},
 		{MaxStmts: 40, MaxDepth: 3, Funcs: 3, Strings: true, Containers: true},
-		{MaxStmts: 50, MaxDepth: 3, Funcs: 4, Strings: true, Containers: true, Structs: true, SmallInts: true, FuncLits: true, Ifaces: true, NamedTypes: true},
+		{MaxStmts: 50, MaxDepth: 3, Funcs: 4, Strings: true, Containers: true, Structs: true, SmallInts: true, FuncLits: true, Ifaces: true, NamedTypes: true, Lib: true},
 		{MaxStmts: 40, MaxDepth: 3, Funcs: 3, Choice: true, Strings: true, Structs: true, FuncLits: true, Containers: true},
 		{MaxStmts: 50, MaxDepth: 3, Funcs: 4, Strings: true, Containers: true, Structs: true, Panics: true, Ifaces: true, NamedTypes: true},
+		{MaxStmts: 40, MaxDepth: 3, Funcs: 5, Strings: true, Containers: true, Structs: true, FuncLits: true, Ifaces: true, NamedTypes: true, NoGlobals: true, Packages: true, Lib: true},
 	}
 }
 
@@ -60,7 +61,7 @@ func compareBehaviours(c *Ctx, b *mgBatch, optimize bool, what string) {
 
 func checkC01(c *Ctx) {
 	c.Level = "model_checking"
-	c.Rule = "programs = seeded random well-typed programs of the MiniGo grammar in 6 profiles (integers; + strings and narrow integer types; + slices and maps; + struct references and methods; + choice()-driven control flow explored on every path; + statements that may panic at run time); distinct_nontrivial = distinct program sources with at least one loop, switch or call"
+	c.Rule = "programs = seeded random well-typed programs of the MiniGo grammar in 7 profiles (integers; + strings, narrow integer types and calls of the bundled string library (strings.Contains/Repeat/TrimSuffix/TrimSpace/TrimRight/Replace/ReplaceAll/Split/Join, strconv.Itoa); + slices and maps; + struct references, methods, function literals, interface values and named types; + choice()-driven control flow explored on every path; + statements that may panic at run time; + multi-package layouts: a closed set of declarations moved into an imported package); distinct_nontrivial = distinct program sources with at least one loop, switch or call"
 	c.Assumptions = []string{"MiniGo.tla is calibrated against the Go toolchain on every behaviour of every generated program in this run", "float64 and library calls are outside the generated grammar in this version (DESIGN.md section 7)", "map iteration order and append growth are kept unobservable by the generator"}
 	r := rand.New(rand.NewSource(c.Seed))
 	n := c.pick(1500, 20000)
